@@ -499,6 +499,9 @@ func (g *gen) genService(fi int) {
 	}
 	g.emit(fi, Line{Text: head + " {", Kind: "service-open", Owner: s.name, Defines: s.name, Refs: refsOf(hrefs)})
 	n := g.r.Intn(5)
+	if g.opts.Rich {
+		n = 2 + g.r.Intn(5)
+	}
 	for i := 0; i < n; i++ {
 		fn := fmt.Sprintf("m%d_%d", g.n, i)
 		var refs []*sym
@@ -523,7 +526,7 @@ func (g *gen) genService(fi int) {
 		txt += ret + " " + fn + "(" + strings.Join(args, ", ") + ")"
 		if !oneway {
 			xs := g.visible(fi, "exception")
-			if len(xs) > 0 && g.r.Chance(1, 2) {
+			if len(xs) > 0 && (g.r.Chance(1, 2) || g.opts.Rich) {
 				k := 1 + g.r.Intn(3)
 				var th []string
 				used := map[*sym]bool{}
@@ -613,7 +616,11 @@ func Generate(r Rand, o Options) *Program {
 		}
 		nd := 1 + r.Intn(o.MaxDefs)
 		for d := 0; d < nd; d++ {
-			switch c := r.Intn(12); {
+			c := r.Intn(12)
+			if o.Rich && r.Chance(1, 3) {
+				c = []int{4, 5, 10, 11}[r.Intn(4)] // more constants and services
+			}
+			switch {
 			case c < 2:
 				g.genEnum(fi)
 			case c < 4:
@@ -625,7 +632,11 @@ func Generate(r Rand, o Options) *Program {
 			case c < 10:
 				g.genStructLike(fi, []string{"union", "exception"}[r.Intn(2)])
 			default:
-				if len(g.visible(fi, "exception")) == 0 && r.Chance(1, 2) {
+				want := 1
+				if o.Rich {
+					want = 2 + r.Intn(2)
+				}
+				for len(g.visible(fi, "exception")) < want && r.Chance(2, 3) {
 					g.genStructLike(fi, "exception")
 				}
 				g.genService(fi)
